@@ -130,7 +130,7 @@ def _st_timeouts(draw: st.DrawFn) -> list:
         r = draw(st.integers(0, 9))
         if r <= 3:
             out.append(None)
-        elif r == 4:
+        elif r <= 5:
             out.append(0.0)
         else:
             out.append(draw(st.sampled_from([0, 0, 1, 1, 2, 3, 6])) + 2.0 ** -(j + 1))
@@ -821,8 +821,8 @@ CHECK = Check(
         "partially received, or a parse error / timeout is observed between two delivered requests; distinct = sha1 of the case"
     ),
     layers=[
-        Layer("lowlevel", _strategy("lowlevel"), run_case, {"quick": 900, "thorough": 5000}),
-        Layer("highlevel", _strategy("highlevel"), run_case, {"quick": 900, "thorough": 5000}),
+        Layer("lowlevel", _strategy("lowlevel"), run_case, {"quick": 1500, "thorough": 12000}),
+        Layer("highlevel", _strategy("highlevel"), run_case, {"quick": 1500, "thorough": 12000}),
     ],
     assumptions=[
         "malformed frames are those with a frame-exact error (bad encoding / bad JSON line / marked payload / bad trailer / bad record / "
